@@ -117,7 +117,7 @@ impl LexiconReader {
                     __iw <= e.word_structure@.len(), refs_wellformed(*e), max_0 <= u32::MAX, max_1 <= u32::MAX,
                     forall|i: int| 0 <= i < __iw ==> ref_ok(#[trigger] e.word_structure@[i], max_0 as int, max_1 as int),
                 decreases e.word_structure@.len() - __iw
-//@  before if e.left_id >= self.max_left {
+//@  before if e.left_id >
             proof { assert(*e == self.entries@[__ie - 1]); assert(refs_wellformed(*e)); }
 //@  before ctx.add_line(1);
             proof { assert(entry_valid(*e, self.max_left, self.max_right, max_0 as int, max_1 as int)); }
